@@ -14,13 +14,13 @@ from . import compat
 
 TIERS = {
     # property -> tier -> plan
-    "C05": {"quick": dict(faultfree=2500, fault=2500, wall=75, selftest=24),
+    "C05": {"quick": dict(faultfree=4000, fault=4000, wall=100, selftest=24),
             "thorough": dict(faultfree=120000, fault=120000, wall=900, selftest=200)},
-    "C19": {"quick": dict(faultfree=2500, fault=1500, wall=75, selftest=24),
+    "C19": {"quick": dict(faultfree=4000, fault=2500, wall=100, selftest=24),
             "thorough": dict(faultfree=100000, fault=60000, wall=900, selftest=200)},
     "C20": {"quick": dict(faultfree=1500, fault=1500, wall=80, selftest=24),
             "thorough": dict(faultfree=50000, fault=50000, wall=900, selftest=200)},
-    "C18": {"quick": dict(faultfree=900, fault=500, wall=100, selftest=16),
+    "C18": {"quick": dict(faultfree=1300, fault=900, wall=150, selftest=16),
             "thorough": dict(faultfree=50000, fault=25000, wall=1200, selftest=120)},
 }
 CHUNK = 6
@@ -290,7 +290,13 @@ def do_check(prop, tier, base_seed, workers, runs=None, wall=None, no_selftest=F
         p = subprocess.run([sys.executable, os.path.join(compat.VERIF_ROOT, "check"), "--replay", path],
                            capture_output=True, text=True, timeout=600,
                            env=dict(os.environ, PYTHONHASHSEED="31337"))
-        if p.returncode != 1:
+        if p.returncode == 3:
+            # same violation signature in a fresh process, another event-log fingerprint: the
+            # defect itself is not a function of the operations alone (stale data picked by
+            # object address, say).  It is a violation that replays; the log says what differs
+            say(f"  note: replay of {path} in a fresh process reproduces the violation signature; the event log differs "
+                f"between processes (the faulty behaviour depends on process state such as object addresses)")
+        elif p.returncode != 1:
             say(f"HARNESS-ERROR replay of {path} in a fresh process returned {p.returncode}: {p.stdout[-600:]}")
             exit_code = max(exit_code, 2)
             continue
